@@ -115,6 +115,9 @@ def value_grid(rnd=None, extra=0):
     add(None, "None")
     for s in ("", "abc", "12", "0", "true", "FF0000", "ff00aa", "GG0000", "12345", "1234567", " ", "a b", "é", "x" * 300):
         add(s, "str")
+    # strings Python's own number parsers take but no XSD lexical space does: sign, prefix, digit separator, padding, other digits
+    for s in ("+12345", "-12345", "0x1234", "1_2345", " 12345", "12345 ", "\u0661\u0662\u0663\u0664\u0665\u0666", "+1", "1_0", " 1", "0x10", "1e2", "\uff11\uff12"):
+        add(s, "str-python-number-syntax")
     add(b"abc", "bytes")
     add(decimal.Decimal("1.5"), "Decimal")
     add(decimal.Decimal("100"), "Decimal")
@@ -162,6 +165,7 @@ def plan(tier, seed):
     return (
         [{"kind": "attrs", "shard": i, "of": n, "extra": 0 if tier == "quick" else 2000} for i in range(n)]
         + [{"kind": "enums"}, {"kind": "suite"}]
+        + [{"kind": "api_lexical", "shard": i, "of": 4, "per_row": 2 if tier == "quick" else 12} for i in range(4)]
         + [{"kind": "corpus", "shard": i, "of": 4} for i in range(4)]
         + [{"kind": "online", "n": 30 if tier == "quick" else 500, "shard": i} for i in range(4 if tier == "quick" else 16)]
     )
@@ -567,6 +571,8 @@ def run_unit(unit, tier, seed, acc):
         return run_enums(acc)
     if unit["kind"] == "corpus":
         return run_corpus(unit, acc)
+    if unit["kind"] == "api_lexical":
+        return run_api_lexical(unit, seed, acc)
     if unit["kind"] == "online":
         from vlib import histories
 
@@ -582,6 +588,103 @@ def run_unit(unit, tier, seed, acc):
             check_attr(T, cls, d, acc, grid)
             if len(acc.samples) < 3:
                 acc.samples.append({"tag": T.split("}")[1], "attribute": d["attr"], "simple_type": d["simple_type"].__name__, "values_tried": len(grid), "first": [_short(v) for v, _ in grid[:6]]})
+
+
+def _alternatives(el, name, text):
+    """Other lexical forms of attribute `name` of `el` that the schema type of that attribute accepts and that stand for the same
+    value: a universal measure for a whole number of EMU, a percent string, the other spelling of a boolean."""
+    from vlib import instgen, xsdkit
+
+    tname = instgen.declared_type(el)
+    if tname is None:
+        return []
+    try:
+        typ = xsdkit.model().attributes(tname).get(name, (None,))[0]
+    except Exception:  # noqa
+        return []
+    if typ is None:
+        return []
+    out = []
+    if re.fullmatch(r"-?[0-9]+", text):
+        v = int(text)
+        if v % 12700 == 0:
+            out.append("%dpt" % (v // 12700))
+        if v % 9144 == 0:
+            out.append(("%.2f" % (v / 914400.0)).rstrip("0").rstrip(".") + "in")
+        if v % 360 == 0:
+            out.append(("%.3f" % (v / 36000.0)).rstrip("0").rstrip(".") + "mm")
+        chart = el.tag.startswith("{http://schemas.openxmlformats.org/drawingml/2006/chart}")
+        if chart:
+            out.append("%d%%" % v)
+        elif v % 1000 == 0:
+            out.append("%d%%" % (v // 1000))
+        out += {"1": ["true"], "0": ["false"]}.get(text, [])
+    else:
+        out += {"true": ["1"], "false": ["0"]}.get(text, [])
+    good = []
+    for alt in out:
+        try:
+            if alt != text and xsdkit.type_valid(typ, alt)[0]:
+                good.append(alt)
+        except LookupError:
+            pass
+    return good
+
+
+def run_api_lexical(unit, seed, acc):
+    """'Every schema-valid lexical form met in a document can be read' - through the API READERS, whatever route they take to the
+    attribute (a declared attribute, a hand-written helper doing its own int(), an XPath): for each row of the C09 table an
+    in-domain value is assigned through the API, the attribute(s) that assignment wrote are found by comparing the part before
+    and after, each is re-spelt in an equivalent form valid for its schema type (5pt / 0.1in for EMU, 50% for thousandths,
+    true for 1), and the API is read again: it must report what it reported for python-pptx's own spelling."""
+    from props import c09
+    from vlib import env, xsdkit
+
+    t = c09.T()
+    rows = [r for r in t.ROWS]
+    for i, row in enumerate(rows):
+        if i % unit["of"] != unit["shard"]:
+            continue
+        vals = [(v, c) for v, c in c09.ok_values(row) if v is not None][: unit["per_row"] * 3]
+        rnd = env.rng("C11api", seed, row.id)
+        rnd.shuffle(vals)
+        prs = c09.new_deck()
+        for k, (v, vcls) in enumerate(vals[: unit["per_row"]]):
+            try:
+                sl = c09.fresh_slide(prs, row, env.rng("C09", "fixture", row.id, k))
+                obj = c09.resolve(row.path, prs, sl)
+            except Exception:  # noqa
+                acc.count("api_lexical:fixture_failed")
+                continue
+            roots = [prs._element] if row.path.startswith("prs") else [sl._element]
+            if ".chart" in row.path:
+                roots.append(c09.resolve(row.path[: row.path.index(".chart") + 6], prs, sl)._chartSpace)
+            before = {(ri, r_.getroottree().getpath(e), a): tx for ri, r_ in enumerate(roots) for e in r_.iter() if isinstance(e.tag, str) for a, tx in e.attrib.items()}
+            try:
+                row.set(obj, v)
+            except Exception:  # noqa  (C09 judges whether an in-domain value may raise)
+                continue
+            r1 = c09.read(row, obj)
+            if isinstance(r1, c09.Raises):
+                continue
+            wrote = [(e, a, tx) for ri, r_ in enumerate(roots) for e in r_.iter() if isinstance(e.tag, str) for a, tx in e.attrib.items() if before.get((ri, r_.getroottree().getpath(e), a)) != tx]
+            acc.count("api_lexical:assignments")
+            for e, a, tx in wrote[:4]:
+                for alt in _alternatives(e, a, tx):
+                    e.set(a, alt)
+                    try:
+                        r2 = c09.read(row, obj)
+                    finally:
+                        e.set(a, tx)
+                    acc.count("api_lexical:alternative_forms_read")
+                    acc.hit("api-reader:" + row.id)
+                    if not c09.same(row.cmp, r1, r2):
+                        acc.violation(
+                            "api-reader-lexical-alternative:%s:%s" % (row.id, xsdkit.pfx_tag(e.tag) + "/@" + a.rsplit("}", 1)[-1]),
+                            "%s = %s wrote %s/@%s=%r and reads %s; with the equivalent form %r the API reads %s" % (row.id, c09.short(v), xsdkit.pfx_tag(e.tag), a, tx, c09.short(r1), alt, c09.short(r2)),
+                            {"api_lexical": row.id, "value": c09.enc(v), "alt": alt, "seed": seed},
+                        )
+            acc.case(desc=("api_lexical", row.id, k), nontrivial=bool(wrote), cls="api-reader")
 
 
 def run_corpus(unit, acc):
